@@ -401,6 +401,30 @@ impl RefInstance {
                 }
             }
         }
+        // Conventions taken from the loader's documented (printed) behaviour: a dead-head duration
+        // above the planning duration (whole days spanned by the activities) is replaced by it,
+        // a dead-head distance above 1000 km by 1000 km.
+        {
+            let lo = acts.iter().map(|a| a.start).min();
+            let hi = acts.iter().map(|a| a.end).max();
+            if let (Some(lo), Some(hi)) = (lo, hi) {
+                let planning = div_ceil((hi - lo) as u64, 86400) * 86400;
+                for row in tt.iter_mut() {
+                    for x in row.iter_mut() {
+                        if *x > planning {
+                            *x = planning;
+                        }
+                    }
+                }
+            }
+            for row in dd.iter_mut() {
+                for x in row.iter_mut() {
+                    if *x > 1_000_000 {
+                        *x = 1_000_000;
+                    }
+                }
+            }
+        }
         Ok(RefInstance {
             types,
             locs,
